@@ -472,7 +472,9 @@ func RunModel(ctx *vrun.Ctx, prop string, m ModelCfg, timeout time.Duration) err
 				e.f.NoSpecial = true
 				e.f.SpendP = 0.3
 				e.f.MaxSpends = 3
-				e.f.Preamble(50)
+				// the number of old blocks varies per factory, so that prune events (one per filled block file)
+				// and the flushes they force fall at different places relative to the workload
+				e.f.Preamble(40 + int(uint64(e.seed)%13))
 			} else if m.Catalogue {
 				o := NetOpts{Maturity: 2, BIP34: false}
 				if m.BIP34 {
